@@ -13,6 +13,7 @@ import (
 	"encoding/pem"
 	"errors"
 	"fmt"
+	"github.com/ProtonMail/go-crypto/openpgp/packet"
 	"github.com/sassoftware/relic/v8/token"
 	"github.com/sassoftware/relic/v8/token/tokencache"
 	"io"
@@ -50,6 +51,7 @@ var (
 	leafs    = map[string]*x509.Certificate{}
 	selfs    = map[string]*x509.Certificate{} // self-signed certificate per key (typical for APK signing)
 	pgps     = map[string]*openpgp.Entity{}
+	pgpsSub  = map[string]*openpgp.Entity{} // as pgps, plus a signing subkey the token does not hold
 )
 
 type emptyPassword struct{}
@@ -76,6 +78,13 @@ func TestMain(m *testing.M) {
 		selfs[k] = keys.SelfSigned("c07 self-signed "+k, keys.Key(k), nil)
 		if keys.Kind(k) == "rsa" {
 			pgps[k] = keys.PGPEntity(k, "c07 "+k, k+"@c07.example")
+			// the same certificate with a signing subkey of other key material (a key the
+			// token does not hold): OpenPGP implementations sign with the newest signing subkey
+			sub := keys.PGPEntity(k, "c07 "+k, k+"@c07.example")
+			if err := sub.AddSigningSubkey(&packet.Config{RSABits: 2048, DefaultHash: crypto.SHA256, Time: func() time.Time { return keys.Epoch.Add(2 * time.Hour) }}); err != nil {
+				panic(err)
+			}
+			pgpsSub[k] = sub
 		}
 	}
 	code := m.Run()
@@ -226,13 +235,20 @@ func TestC07_KeyCertificate(t *testing.T) {
 			cd.Container, cd.Order = "pkcs12", "leaf+"+fmt.Sprint(len(cas))+"ca"
 			chain = append([]*x509.Certificate{p12leaf}, cas...)
 		}
+		foreignSubkey := false
 		if isPGP {
 			cd.PGPKey = cd.Key
 			if rapid.IntRange(0, 2).Draw(t, "pgpother") == 0 {
 				cd.PGPKey = rapid.SampledFrom([]string{"rsa2048a", "rsa2048b", "rsa3072"}).Draw(t, "pgpotherkey")
 			}
 			p := filepath.Join(dir, "k.pgp")
-			os.WriteFile(p, keys.PGPPublic(pgps[cd.PGPKey]), 0o644)
+			pub := keys.PGPPublic(pgps[cd.PGPKey])
+			if cd.PGPKey == cd.Key && rapid.IntRange(0, 2).Draw(t, "pgp_foreign_subkey") == 0 {
+				pub = keys.PGPPublic(pgpsSub[cd.PGPKey])
+				foreignSubkey = true
+				cd.PGPKey += "+signing-subkey-of-other-key-material"
+			}
+			os.WriteFile(p, pub, 0o644)
 			kc.PgpCertificate = p
 		}
 		cfg.Keys["k"] = kc
@@ -245,7 +261,7 @@ func TestC07_KeyCertificate(t *testing.T) {
 		// model: the certificate relic treats as the leaf is the first one
 		firstIsKeys := len(chain) > 0 && (chain[0] == leafs[cd.Key] || chain[0] == selfs[cd.Key])
 		x509Match := firstIsKeys
-		pgpMatch := !isPGP || cd.PGPKey == cd.Key
+		pgpMatch := !isPGP || cd.PGPKey == cd.Key || foreignSubkey
 		// (the X.509 certificate of a key is checked at key initialisation for every signature type)
 		expectOK := pgpMatch && x509Match
 		// a chain that contains the right leaf but not first may be refused or re-ordered
@@ -298,7 +314,9 @@ func TestC07_KeyCertificate(t *testing.T) {
 				// manifests embed the issuer's key hash, so a chain without the issuer cannot be used
 				expectOK = false
 			}
-			if expectOK {
+			if expectOK && !foreignSubkey {
+				// (with a signing subkey the token does not hold, refusing is right: the signature
+				// would have to be issued in that subkey's name)
 				failf("a matching key/certificate configuration was refused: %v", err)
 			}
 			now, _ := os.ReadFile(in)
@@ -318,19 +336,58 @@ func TestC07_KeyCertificate(t *testing.T) {
 			}
 			return
 		}
+		// history: once this entry has signed, a second entry that names the same certificate
+		// files but another key must still be refused, whatever has been loaded before
+		secondEntry := func() {
+			if cd.Source != "file" || !expectOK || rapid.IntRange(0, 1).Draw(t, "second_entry") != 0 {
+				return
+			}
+			pool := poolKeys
+			if isPGP {
+				pool = []string{"rsa2048a", "rsa2048b", "rsa3072"}
+			}
+			var others []string
+			for _, k := range pool {
+				if k != cd.Key {
+					others = append(others, k)
+				}
+			}
+			otherKey := rapid.SampledFrom(others).Draw(t, "second_entry_key")
+			k2 := filepath.Join(dir, "k2.key")
+			os.WriteFile(k2, keys.KeyPEM(otherKey), 0o600)
+			cfg.Keys["k2"] = &config.KeyConfig{Token: "file", KeyFile: k2, X509Certificate: kc.X509Certificate, PgpCertificate: kc.PgpCertificate}
+			if err := env.Install(cfg); err != nil {
+				t.Fatalf("harness: configuration rejected: %v", err)
+			}
+			in2 := filepath.Join(dir, "second-"+a.Name)
+			os.WriteFile(in2, a.Data, 0o644)
+			req2 := &pipe.Req{SigType: a.SigType, In: in2, Key: "k2", Hash: crypto.SHA256}
+			if format == "pgp" {
+				req2.Out = filepath.Join(dir, "second.out")
+			}
+			cd.Source = "file; then a second entry with key " + otherKey + " naming the same certificate files"
+			if err := env.SignLib(req2); err == nil {
+				failf("after entry k had signed, entry k2 (key %s, same certificate files) was allowed to sign although the certificates do not belong to its key", otherKey)
+			}
+		}
 		// a signature was emitted
 		if cd.Expect == "refuse" {
 			failf("a signature was emitted although the configured certificate (%s) does not belong to the signing key (%s)", cd.CertKey, tokenKey)
 		}
 		signed, _ := os.ReadFile(out)
 		if isPGP {
-			vr := &pipe.VerifyReq{Path: out, PGP: openpgp.EntityList{pgps[cd.Key]}}
+			ring := openpgp.EntityList{pgps[cd.Key]}
+			if foreignSubkey {
+				ring = openpgp.EntityList{pgpsSub[cd.Key]}
+			}
+			vr := &pipe.VerifyReq{Path: out, PGP: ring}
 			if format == "pgp" {
 				vr.Content = in
 			}
 			if _, err := env.Verify(vr); err != nil {
 				failf("emitted PGP signature does not verify under the signing key's certificate: %v", err)
 			}
+			secondEntry()
 			return
 		}
 		// X.509: leaf first and signature verifies under the key's certificate
@@ -368,6 +425,7 @@ func TestC07_KeyCertificate(t *testing.T) {
 				failf("the verified signature's leaf is not the signing key's certificate")
 			}
 		}
+		secondEntry()
 	})
 }
 
